@@ -52,15 +52,20 @@ def certHas (c : ProgCert) (f : Nat) : Bool := (c.prog.subs.lookup (subLabel f))
     under the frame-pointer convention also: the parameter slots are pairwise distinct, and the
     routines a certified routine may call without being re-entered (`okCallsOf`) reach certified
     routines only -/
-def fragmentOnCert (fp : Bool) (p : Prog) (c : ProgCert) (dyn : Bool := false) : Bool :=
-  mainOkC fp p dyn && p.subs.all (fun sd => !certHas c sd.id || subOkC fp p sd dyn) &&
+def fragmentOnCert (fp : Bool) (p : Prog) (c : ProgCert) (dyn : Bool := false) (strict : Bool := false) : Bool :=
+  mainOkC fp p dyn strict && p.subs.all (fun sd => !certHas c sd.id || subOkC fp p sd dyn strict) &&
   (!fp || (nodupB (allParamSlots p) &&
     p.subs.all (fun sd => !certHas c sd.id ||
-      (okCallsOf p sd).all (fun g => sd.reenters.contains g || (reachSet p g).all (certHas c)))))
+      (okCallsOf p sd).all (fun g => sd.reenters.contains g || (reachSet p g).all (certHas c))))) &&
+  -- by-reference discipline: the declared routines that the main routine / a certified routine calls are certified
+  (!(strict && !fp) ||
+    ((callsOf p.main).all (fun g => certHas c g || (findSub p g).isNone) &&
+     p.subs.all (fun sd => !certHas c sd.id || (callsOf sd.body).all (fun g => certHas c g || (findSub p g).isNone))))
 
 /-- everything `Proofs.C02Compile.compile_correct_validated_prog` assumes, as one decidable check -/
-def composedOk (version : Nat) (fp : Bool) (p : Prog) (P : Program) (c : ProgCert) (dyn : Bool := false) : Bool :=
-  fragmentOnCert fp p c dyn && certMainOk version p c && certSubsOk version fp p c && certClosed c && checkCert P c
+def composedOk (version : Nat) (fp : Bool) (p : Prog) (P : Program) (c : ProgCert) (dyn : Bool := false)
+    (strict : Bool := false) : Bool :=
+  fragmentOnCert fp p c dyn strict && certMainOk version p c && certSubsOk version fp p c && certClosed c && checkCert P c
 
 /-- the renamed program of `buildCert` (its discovery pass, repeated) -/
 def renamedProg (version : Nat) (fp : Bool) (p : Prog) (P : Program) : Except String Prog := do
@@ -77,15 +82,15 @@ def renamedProg (version : Nat) (fp : Bool) (p : Prog) (P : Program) : Except St
 
 /-- certificate check + link check: `.ok true` iff the composed
     theorem applies to (the renamed form of) this program and this TEAL text -/
-def validateComposed (version : Nat) (fp : Bool) (p : Prog) (P : Program) (dyn : Bool := false) :
-    Except String Bool := do
+def validateComposed (version : Nat) (fp : Bool) (p : Prog) (P : Program) (dyn : Bool := false)
+    (strict : Bool := false) : Except String Bool := do
   let p' ← renamedProg version fp p P
   let (c, _) ← validateProgCert version fp p P
-  pure (composedOk version fp p' P c dyn)
+  pure (composedOk version fp p' P c dyn strict)
 
 /-- `validateComposed` as a Boolean (errors count as `false`) -/
-def composedB (version : Nat) (fp : Bool) (p : Prog) (P : Program) (dyn : Bool := false) : Bool :=
-  match validateComposed version fp p P dyn with
+def composedB (version : Nat) (fp : Bool) (p : Prog) (P : Program) (dyn : Bool := false) (strict : Bool := false) : Bool :=
+  match validateComposed version fp p P dyn strict with
   | .ok b => b
   | .error _ => false
 
